@@ -763,6 +763,83 @@ def c19(v):
     eventtrace(v, "randpics", plan, {"result", "panic"}, shard=1500)
 
 
+PIC_DATE1 = "YYYY-YYY-YY-Y MM MON Mon mon MONTH Month month DD DDD"
+PIC_DATE2 = "D DAY Day day DY Dy dy W WW/DD;MM,YYYY"
+PIC_TIME = "HH24:MI:SS HH12 HH AM am A.M. a.m. PM pm P.M. p.m."
+PIC_FRAC = "FF FF1 FF2 FF3 FF4 FF5 FF6 FF7 FF8 FF9"
+PIC_TS = "YYYY-MM-DD\\DDD Dy HH24:MI:SS.FF6 HH12 P.M. FF3"
+ALL_TOKENS = ["YYYY", "YYY", "YY", "Y", "MONTH", "Month", "month", "MON", "Mon", "mon", "MM", "MI", "DDD", "DD", "DAY", "Day", "day",
+              "DY", "Dy", "dy", "D", "HH24", "HH12", "HH", "SS", "FF", "FF1", "FF2", "FF3", "FF4", "FF5", "FF6", "FF7", "FF8", "FF9",
+              "A.M.", "p.m.", "AM", "pm", "WW", "W", "T", "-", ":", "/", "\\", ",", ".", ";", " ", "  "]
+
+
+def random_token_pictures(rnd, n, maxtok=36):
+    out = []
+    for _ in range(n):
+        k = rnd.randint(1, maxtok)
+        out.append(list("".join(rnd.choice(ALL_TOKENS) for _ in range(k))))
+    return out
+
+
+@prop("C04")
+def c04(v):
+    import pools
+    import random
+    v.cov["rule"] = ("formatting events recorded from the crate and judged by Render.tla (through Pic.tla): every window day x two "
+                     "composite date pictures holding every date token in every letter case (Date), a timestamp picture "
+                     "(Timestamp/OracleDate at rotating critical times); seconds of the day x every time token and AM/PM spelling; "
+                     "microseconds on a digit-rollover grid x FF, FF1..FF9; boundary/random intervals; random composite pictures of "
+                     "up to 36 tokens for all six types incl. inapplicable tokens (error expected). distinct_nontrivial = distinct "
+                     "(op, value, picture).")
+    P = pools.Pools(v.seed, scale_of(v))
+    rnd = random.Random(v.seed + 4)
+    plan = []
+    days = []
+    for a, b in sweep_ranges(v, "full"):
+        days += list(range(a, b + 1))
+    if v.tier == "thorough":
+        days = days[::4] + [d for d in days if d % 4 == 1][::3]      # >1/3 of all days; every day is in C06's sweep
+    crit = [[0, 0], [0, 1], [43199, 999999], [43200, 0], [86399, 999999], [3661, 123456]]
+    for i, n in enumerate(days):
+        plan.append(("D.format", [n, list(PIC_DATE1)]))
+        plan.append(("D.format", [n, list(PIC_DATE2)]))
+        if i % 3 == 0:
+            t = crit[(i // 3) % len(crit)]
+            plan.append(("TS.format", [[n, t[0], t[1]], list(PIC_TS)]))
+            plan.append(("OD.format", [[n, t[0], 0], list(PIC_DATE2 + " " + "HH:MI:SS pm")]))
+    step = 60 if v.tier == "quick" else 1
+    secs = sorted(set(list(range(0, 86400, step)) + [h * 3600 + 3599 for h in range(24)] + [h * 3600 for h in range(24)]))
+    for s_ in secs:
+        plan.append(("T.format", [[s_, (s_ * 7919) % 1000000], list(PIC_TIME)]))
+    if v.tier == "quick":
+        uss = sorted(set([0, 1, 9, 10, 99, 100, 999, 1000, 9999, 10000, 99999, 100000, 999999, 123456, 500000, 499999, 654321] +
+                         [rnd.randint(0, 999999) for _ in range(3000)] + [k * 10**j for j in range(6) for k in range(1, 10)] +
+                         [k * 10**j - 1 for j in range(1, 6) for k in range(1, 10)]))
+    else:
+        uss = range(0, 1000000)
+    for us in uss:
+        plan.append(("T.format", [[45296, us], list(PIC_FRAC)]))
+    for x in P.dt:
+        plan.append(("DT.format", [x, list("DD HH24:MI:SS.FF6")]))
+        plan.append(("DT.format", [x, list("DD HH24:MI:SS.FF9 FF1 FF")]))
+    for k in P.ym:
+        plan.append(("YM.format", [k, list("YYYY-MM")]))
+        plan.append(("YM.format", [k, list("Y MM YY;YYY")]))
+    # random composite pictures for every type (inapplicable tokens -> error expected)
+    pics = random_token_pictures(rnd, 700 * scale_of(v))
+    tys = [("D", P.dates), ("T", P.times), ("TS", P.ts), ("OD", P.od), ("YM", P.ym), ("DT", P.dt)]
+    for i, pic in enumerate(pics):
+        for ty, pool in tys:
+            for _ in range(2):
+                plan.append((ty + ".format", [rnd.choice(pool), pic]))
+    # single-token pictures x every type: applicability table
+    for tok in ALL_TOKENS:
+        for ty, pool in tys:
+            for val in pool[:6]:
+                plan.append((ty + ".format", [val, list(tok)]))
+    eventtrace(v, "format", plan, {"result", "panic"}, shard=6000)
+
+
 def replay(path):
     """Re-runs the check a replay file came from (same property, tier, seed)."""
     rp = json.load(open(path))
